@@ -156,6 +156,13 @@ func c18Exec(c *engine.Ctx, cs c18Case) {
 			fail("error", err.Error())
 			return
 		}
+		// the option list is the caller's slice: handed over a second time it gives the same output
+		var data2 []byte
+		var err2 error
+		if p, _ := engine.Guard(func() { data2, err2 = geojson.Marshal(t, opts...) }); p != nil || err2 != nil || !bytes.Equal(data, data2) {
+			fail("second-call", fmt.Sprintf("the same call with the same option slice a second time: %s (error %v, panic %v); the first time: %s", clipStr(string(data2), 200), err2, p, clipStr(string(data), 200)))
+			return
+		}
 		dec := json.NewDecoder(bytes.NewReader(data))
 		dec.UseNumber()
 		var doc map[string]any
@@ -423,6 +430,45 @@ func c18Run(c *engine.Ctx) {
 		for _, d := range ds {
 			c18Exec(c, c18Case{Codec: "wkt", G: g, D: d})
 			c18Exec(c, c18Case{Codec: "geojson", G: g, D: d, BBox: i % 3})
+		}
+	})
+	// positions that mix magnitudes: every ordered tuple of 2, 3 and 4 values over a menu of
+	// integral, fractional, tiny and huge values (around 2^52/2^53, where floats stop having
+	// fractional parts, and beyond) as an XY, XYZ and XYZM point, and the 4-tuples also as a
+	// two-vertex XY line - state carried from one ordinate to the next shows here
+	mixMenu := []float64{0, 0.375, -0.1, 1.005, 123456.789, math.Ldexp(1, 52) - 0.5, math.Ldexp(1, 52), math.Ldexp(1, 53) + 2, 1e20, -1e20, 1e300, 1e-7}
+	var tuples [][]float64
+	var recT func(cur []float64)
+	recT = func(cur []float64) {
+		if len(cur) >= 2 {
+			tuples = append(tuples, append([]float64{}, cur...))
+		}
+		if len(cur) == 4 {
+			return
+		}
+		for _, v := range mixMenu {
+			recT(append(cur, v))
+		}
+	}
+	recT(nil)
+	c.Note("mixed_magnitude_tuples", len(tuples))
+	mixDs := []int{0, 1, 3, 7, 15}
+	if c.Thorough() {
+		mixDs = ds
+	}
+	c.Parallel(len(tuples), func(i int) {
+		tp := tuples[i]
+		l := map[int]geom.Layout{2: geom.XY, 3: geom.XYZ, 4: geom.XYZM}[len(tp)]
+		gs := []*ref.G{{Kind: ref.Point, Layout: l, C0: ref.FromFloats(tp)}}
+		if len(tp) == 4 {
+			gs = append(gs, &ref.G{Kind: ref.LineString, Layout: geom.XY, C1: []ref.C{ref.FromFloats(tp[:2]), ref.FromFloats(tp[2:])}})
+		}
+		for _, g := range gs {
+			for _, d := range mixDs {
+				c.Count("mixed_magnitude_cases", 1)
+				c18Exec(c, c18Case{Codec: "wkt", G: g, D: d})
+				c18Exec(c, c18Case{Codec: "geojson", G: g, D: d, BBox: (i + d) % 3})
+			}
 		}
 	})
 	// decimal ties with ulp neighbours, per d (all d in both tiers: the set is small)
